@@ -89,7 +89,7 @@ CHECKS['C12'] = dict(level='other', engine='gosym', design='4/C12',
 CHECKS['C02'] = dict(level='translation_validation', engine='lirsym/qbe + lirsym/wasm', design='A.8 and 4/C02',
    technique='SMT-decided back-end agreement: the emitted QBE IL and the emitted .wasm binary of the same function executed symbolically on the same inputs, pairwise path comparison, all parameter values, z3',
    text='For a generated family of template functions (arithmetic, comparisons, casts incl. directly consumed narrowing casts, unguarded division/remainder, control flow, composites, references, dynamic arrays and strings, struct layout) the freshly built compiler emits native code (QBE IL, pointer size 8) and a .wasm module (pointer size 4). The IL and the decoded wasm function are executed symbolically on the same free 64-bit inputs; for every pair of paths z3 decides that termination class (normal / panic-or-trap), returned value and printed values agree. Counterexamples and one witness per template are replayed on the linked native executable and under node with the shipped runtime.js.',
-   note='Trusted: z3; go/ssa; the gosym interpreter; intrinsics; harness oracles. Front-end harnesses run the REAL lexer, parser, collector, resolver and type checker (go/ssa) inside the symbolic interpreter on programs assembled from symbolic choices / symbolic characters; within the stated finite product the exploration is exhaustive, nothing beyond it is claimed. NOT decided: what an accepted reformatted program prints, doc-comment / @extern attachment, programs outside the fixed set, multi-character comment bodies, tabs in the position obligation (known finding D10).')
+   note='Trusted: z3; go/ssa; the gosym interpreter; intrinsics; harness oracles. Front-end harnesses run the REAL lexer, parser, collector, resolver and type checker (go/ssa) inside the symbolic interpreter on programs assembled from symbolic choices / symbolic characters; within the stated finite product the exploration is exhaustive, nothing beyond it is claimed. NOT decided: what an accepted reformatted program prints, doc-comment / @extern attachment, programs outside the fixed set, multi-character comment bodies, tabs among the inserted trivia (the tool counts a tab as 4 columns and the character after it as 0; split-invariance of Position.Advance over tabs is decided by HarnessC19Advance).')
 # additions of the third seeding round (appended to the texts above)
 EXTRA = {
  'C01': ' Families added later: optional narrowing (if x != none: read / assign the narrowed parameter or local), closures that capture parameters and locals by reference (modified before / around the literal, counter incremented by the literal), literal spellings (leading zeros, separators, hex, octal, binary), same-width sign-changing casts used directly.',
